@@ -55,6 +55,7 @@ func (s Script) Serve(w http.ResponseWriter, r *http.Request, log *simfw.Log, re
 			*party = prev
 		}
 	}()
+	var scratch []byte
 	for _, op := range s.Ops {
 		switch op.Op {
 		case "set":
@@ -71,7 +72,16 @@ func (s Script) Serve(w http.ResponseWriter, r *http.Request, log *simfw.Log, re
 			w.WriteHeader(op.Code)
 		case "write":
 			log.Add("handler", "Write", simfw.Trunc(op.Data, 40), "")
-			w.Write([]byte(op.Data)) // result deliberately ignored
+			// like io.CopyBuffer or bufio: every piece goes through one scratch buffer that the
+			// handler refills (ResponseWriter.Write must not retain the slice)
+			if cap(scratch) < len(op.Data) {
+				scratch = make([]byte, len(op.Data)+64)
+			}
+			n := copy(scratch[:cap(scratch)], op.Data)
+			w.Write(scratch[:n]) // result deliberately ignored
+			for i := 0; i < n; i++ {
+				scratch[i] = '#'
+			}
 		case "flush":
 			if f, ok := w.(http.Flusher); ok {
 				log.Add("handler", "Flush", "", "flusher")
